@@ -681,6 +681,35 @@ def step_csv(st, ctx, work, si):
         mm = _compare_track(exp, got, _tols(st["srid"]), fields, ctx, si)
         if mm:
             mm[0]["file_head"] = _file_head(path)
+        if not mm and hk in (3, 4) and st["srid"] in ("GEO", "ECEF") and st["wapi"] == "writeToFile":
+            # derived object: an extract shares its observations with the track it was taken from.  It is written once
+            # (geographic), the parent is then converted to Earth-centred coordinates -- which converts the shared
+            # positions -- and the extract is written again: the file must describe what the extract holds NOW.
+            to = "ECEF" if st["srid"] == "GEO" else "GEO"
+            parent = gen.make_track(st["pts"], st["t_ms"], coord=st["srid"])
+            ext = parent.extract(0, parent.size() - 1)
+            p1, p2 = path + ".d1.csv", path + ".d2.csv"
+            try:
+                M.call(TrackWriter.writeToFile, ext, p1, E, N, U, T, sep, st["h"])
+                cv = M.call(parent.toECEFCoords if to == "ECEF" else parent.toGeoCoords)
+                if not M.is_raised(cv) and type(ext.getObs(0).position).__name__.upper().startswith(to):
+                    exp2 = _truth(ext)
+                    w2 = M.call(TrackWriter.writeToFile, ext, p2, E, N, U, T, sep, st["h"])
+                    rd2 = dict(fd, srid=to)
+                    if st["tf_mode"] == "explicit":
+                        rd2["time_fmt"] = tfmt
+                    rf2 = M.call(TrackFormat, rd2)
+                    r2 = M.call(TrackReader.readFromFile, p2, rf2) if not (M.is_raised(w2) or M.is_raised(rf2)) else w2
+                    ctx.monitor("csv.roundtrip_of_extract_after_parent_conversion")
+                    if M.is_raised(r2) or r2 is None or not hasattr(r2, "getObs"):
+                        return [_raised_mm(si, "extract written after its parent was converted", r2 if M.is_raised(r2) else M.Raised(ValueError("no track"), ""))]
+                    mm = _compare_track(exp2, _truth(r2), _tols(to), fields, ctx, si)
+                    if mm:
+                        mm[0]["file_head"] = _file_head(p2)
+                        mm[0]["history"] = "extract written (%s), parent converted to %s, extract written again" % (st["srid"], to)
+            finally:
+                _rm(p1)
+                _rm(p2)
         return mm
     finally:
         _rm(path)
